@@ -203,3 +203,13 @@ Theorem host_calls_are_where_the_model_logs_them : host_calls_confined = true.
 Proof. exact EventsTie.now_host_calls_confined. Qed.
 Check host_calls_are_where_the_model_logs_them : host_calls_confined = true.
 Print Assumptions host_calls_are_where_the_model_logs_them.
+
+(* T-gen tie of the structural theorems above: in the Rust sources, too, the observation batch is opened / closed and
+   the look-ahead snapshot taken / restored / discarded by continue_internal and continue_single_step only —
+   regenerated from the sources on every run *)
+From Ink.Gen Require Import EngineGen.
+From Ink.Shell Require Import StructureTie.
+Theorem lookahead_structure_is_the_models : lookahead_structure_confined = true.
+Proof. exact StructureTie.now_lookahead_structure_confined. Qed.
+Check lookahead_structure_is_the_models : lookahead_structure_confined = true.
+Print Assumptions lookahead_structure_is_the_models.
